@@ -172,8 +172,8 @@ def run_histories(payload):
                             pth.append([qi, t, d, pi, _find(butler, TYPE_NAMES[t], d, names, probes[pi], ds_num)])
                 obs["path"] = pth
                 xp = []
-                # paths with CHAINED / RUN collections: after every second op and after the last one
-                for xi, path in enumerate(hist.get("xpaths", []) if (si % 2 == 1 or si == len(hist["ops"]) - 1) else []):
+                # paths with CHAINED / RUN collections: after every third op and after the last one (wall time of the quick tier)
+                for xi, path in enumerate(hist.get("xpaths", []) if (si % 3 == 2 or si == len(hist["ops"]) - 1) else []):
                     names = [_coll_name(h, c) for c in path]
                     for (t, d) in sorted({(t, d) for (_, t, d) in hist["keys"]}):
                         for pi in hist.get("xpath_probes", []):
